@@ -5,13 +5,18 @@ use crate::prng::Rng;
 
 pub mod blockapi;
 pub mod c01;
+pub mod counters;
 pub mod hashdiff;
 pub mod hashhist;
 pub mod hist;
 pub mod jhf8;
+pub mod mem;
 pub mod null;
 pub mod ppv;
+pub mod smoke;
 pub mod tf;
+pub mod xback;
+pub mod threads;
 
 pub struct Ctx {
     pub prop: String,
@@ -38,6 +43,9 @@ impl Ctx {
     /// Run the models' self-test; on failure report INCONCLUSIVE and exit(3).
     pub fn selftest(&mut self, which: u32) {
         let limit = if cfg!(miri) { 2 } else { 100000 };
+        // under Miri only the cheap models are re-tested (the native workers of the same check
+        // run self-test the very same model code in full)
+        let which = if cfg!(miri) { which & (crate::refmodel::T_CHACHA | crate::refmodel::T_BLAKE) } else { which };
         match crate::refmodel::selftest(which, limit) {
             Ok(n) => self.log.event("refmodel_selftest_vectors", n),
             Err(e) => {
@@ -70,12 +78,17 @@ pub fn run(cx: &mut Ctx) {
     match cx.prop.as_str() {
         "C01" => c01::run(cx),
         "C02" | "C11" => hist::run(cx),
+        "C03" => xback::run(cx),
         "C04" | "C05" | "C06" | "C07" => hashdiff::run(cx),
         "C08" => hashhist::run(cx),
         "C09" | "C10" => tf::run(cx),
         "C12" | "C13" => ppv::run(cx),
         "C14" | "C15" => blockapi::run(cx),
+        "C16" => mem::run(cx),
+        "C17" => counters::run(cx),
+        "C18" => threads::run(cx),
         "C19" => null::run(cx),
+        "C20" => smoke::run(cx),
         p => {
             eprintln!("unknown property {}", p);
             std::process::exit(2);
@@ -87,12 +100,17 @@ pub fn replay(cx: &mut Ctx, desc: &str) {
     match cx.prop.as_str() {
         "C01" => c01::replay(cx, desc),
         "C02" | "C11" => hist::replay(cx, desc),
+        "C03" => xback::replay(cx, desc),
         "C04" | "C05" | "C06" | "C07" => hashdiff::replay(cx, desc),
         "C08" => hashhist::replay(cx, desc),
         "C09" | "C10" => tf::replay(cx, desc),
         "C12" | "C13" => ppv::replay(cx, desc),
         "C14" | "C15" => blockapi::replay(cx, desc),
+        "C16" => mem::replay(cx, desc),
+        "C17" => counters::replay(cx, desc),
+        "C18" => threads::replay(cx, desc),
         "C19" => null::replay(cx, desc),
+        "C20" => smoke::replay(cx, desc),
         p => {
             eprintln!("unknown property {}", p);
             std::process::exit(2);
